@@ -27,7 +27,7 @@ def sh(cmd, cwd=None, timeout=600):
 
 def main():
     for pid in sys.argv[1:]:
-        base = "/tmp/mut-%s/mutants" % pid
+        base = os.path.join(os.environ.get("INGEST_BASE", "/tmp"), "mut-%s" % pid, "mutants")
         if not os.path.isdir(base):
             print(pid, "no mutants dir")
             continue
@@ -37,7 +37,7 @@ def main():
             demo = os.path.join(d, "demo_test.go")
             if not (os.path.isfile(patch) and os.path.isfile(demo)):
                 continue
-            name = "%s-m%s" % (pid, i)
+            name = "%s-%s%s" % (pid, os.environ.get("INGEST_TAG", "m"), i)
             wt = tempfile.mkdtemp(prefix="ving-", dir="/tmp")
             os.rmdir(wt)
             sh(["git", "-C", "/repo", "worktree", "add", "--detach", wt, "HEAD"])
